@@ -112,3 +112,34 @@ def c03(ctx, replay):
                assumptions=["RFC3339Nano rendering of the frame timestamps by time.Format is trusted (harness side)",
                             "error text left open; records compared up to the first fault",
                             "the fake daemon's reader returns EOF/err persistently after the fault"])
+
+
+@prop("C04")
+def c04(ctx, replay):
+    def nontrivial(scns):
+        # inventories with a timestamp tie across containers or an unsorted / empty log
+        n = 0
+        for sid, lines in scns:
+            i = json.loads(lines[0])["in"]
+            tss = [[tuple(f["ts"]) for f in c["frames"]] for c in i["ctrs"]]
+            allts = [t for l in tss for t in l]
+            if len(set(allts)) < len(allts) or any(l != sorted(l) or not l for l in tss):
+                n += 1
+        return n
+    quick = ctx.tier == "quick"
+    inv = ["PerSourcePrefix", "Conservation", "TimeOrder", "SlotsIndexAddressed"]
+    mcs = [dict(name="merge3", module="MC_Merge", consts=dict(NC=3, MaxRec=2, TSMax=3), invariants=inv, properties=["SlotWriteOnce"])]
+    if not quick:
+        mcs.append(dict(name="merge3b", module="MC_Merge", consts=dict(NC=3, MaxRec=3, TSMax=2), invariants=inv, properties=["SlotWriteOnce"]))
+        mcs.append(dict(name="merge4", module="MC_Merge", consts=dict(NC=4, MaxRec=2, TSMax=2), invariants=inv, properties=["SlotWriteOnce"]))
+    return std(ctx, "C04", mc=mcs, harness_cmd="docker", harness_opts=["mode=merge"], trace_module="Trace_Merge",
+               nrand=T(ctx, 150, 2500), replay=replay, nontrivial=nontrivial, exhaustive=True, chunk_events=20000,
+               rule="step 1: SelectLogs' concurrent open (every interleaving of the per-container completions) + mergeIter with "
+                    "container/heap transcribed, for every inventory of 3 containers x <=2 records over 3 timestamps (quick) plus 3 x <=3 "
+                    "and 4 containers x <=2 records over 2 timestamps (thorough), timestamps with ties, sorted/unsorted/empty logs; step 2/3: every inventory is "
+                    "run through dockerlog.Querier.SelectLogs under ALL completion orders (forced by gating the fake daemon's "
+                    "ContainerLogs calls) and seeded random inventories (<=8 containers x <=50 records, 2-5 random orders); "
+                    "non-trivial = inventories with cross-container timestamp ties, unsorted or empty logs",
+               assumptions=["the completion order is forced by releasing blocked ContainerLogs calls one at a time (20us apart); "
+                            "a run whose calls did not all arrive is marked Unschedulable and not compared",
+                            "tie order among equal timestamps of different containers is left open but must not vary between orders"])
